@@ -576,6 +576,27 @@ theorem C14_stack_earliest_live_lister_owns_witness :
     (run (fun _ => true) St.init [.add exA (some exDesc), .add exB (some exDesc)]).svc.routes exS = some ⟨exA, 1, 0⟩ :=
   Stack_earliest_live_lister_owns_witness
 
+/-- `Stack_routes_from_latest` (GB/Stack/Props.lean), restated here so that `./check C14` audits it. -/
+theorem C14_stack_routes_from_latest (valid : Bytes → Bool) (eval : Bytes → Route → Outcome) (h : List Stack.Op) (T : Name)
+    (d0 : Desc) (hd : (specLatest h).desc T = some d0) :
+    let st := run valid St.init h
+    (∀ S r, st.svc.routes S = some r → r.target = T → listed d0.services S ∧ r.ver = d0.ver) ∧
+    (∀ m path v r, routeHTTP st.present eval st.pat.static m path = .found T v r →
+        v = d0.ver ∧ ∃ rs, built valid d0 m = some rs ∧ r ∈ rs) :=
+  Stack_routes_from_latest valid eval h T d0 hd
+
+/-- `Stack_update_replaces_data` (GB/Stack/Props.lean), restated here so that `./check C14` audits it: a delivered contract
+    change replaces ALL the data behind the routes, for every new description — also one with the same service names. -/
+theorem C14_stack_update_replaces_data (valid : Bytes → Bool) (eval : Bytes → Route → Outcome) (h : List Stack.Op) (T : Name)
+    (d : Desc) (hpres : presentOf h T = true) :
+    let h' := h ++ [.update T d]
+    let st := run valid St.init h'
+    (specLatest h').desc T = some (named T d) ∧
+    (∀ S r, st.svc.routes S = some r → r.target = T → listed (named T d).services S ∧ r.ver = d.ver) ∧
+    (∀ m path v r, routeHTTP st.present eval st.pat.static m path = .found T v r →
+        v = d.ver ∧ ∃ rs, built valid (named T d) m = some rs ∧ r ∈ rs) :=
+  Stack_update_replaces_data valid eval h T d hpres
+
 /-- the first-claimant theorem applies: `a` owns `S`, then `b` is added claiming `S` as well -/
 example : ∃ r, (run (fun _ => true) St.init ([Stack.Op.add exA (some exDesc)] ++ [Stack.Op.add exB (some exDesc)])).svc.routes exS
     = some r ∧ r.target = exA :=
